@@ -210,6 +210,7 @@ def run(prog, rep, tier, cfg):
     X.guard('K6b', 'add_balance:positive', AB, [c.bb for c in AB.calls if (c.defp or '') == TX], m_rel('le', ['C:MessageInfo::value_received'], ['C:zero'], False), 'value <= 0 => Err')
     # ---- running totals (amounts, power, datacap) accumulated in loops keep their earlier contributions
     X.accumulator_integrity('K12', 'running-totals', ['fil_actor_market'], 'running totals of amounts')
+    X.no_dropped_results('K14', 'results-not-discarded', ['fil_actor_market'], 'no Result of a call is discarded')
 
 
 
